@@ -78,7 +78,7 @@ SCOPES = {
         "empty.rs", "complete.rs", "circuit.rs", "cycle.rs", "path.rs", "star.rs", "wheel.rs", "biclique.rs")],
     "C15": every([AL, AM, MX, EL], RND) + [("src/gen/prng/xoshiro256_star_star.rs", ALLFN), ("src/gen/prng/split_mix64.rs", ALLFN),
             ("src/gen/random_tournament.rs", ALLFN), ("src/gen/random_recursive_tree.rs", ALLFN), ("src/gen/erdos_renyi.rs", ALLFN)],
-    "C16": every(REPRS, CONV + r"|impl(<[^>]*>)? (AddArc|AddArcWeighted|Empty|Arcs|Order)\b"),
+    "C16": every(REPRS, CONV + r"|impl(<[^>]*>)? (AddArc|AddArcWeighted|Empty|Arcs|ArcsWeighted|Order)\b|ArcsIterator"),
     "C17": [(AL, PAR), (AM, PAR)],
     "C18": [("src/algo/distance_matrix.rs", ALLFN)],
     "C19": [("src/algo/predecessor_tree.rs", ALLFN)],
